@@ -30,21 +30,23 @@ ENV = dict(os.environ, CARGO_NET_OFFLINE="true", CARGO_TARGET_DIR=CACHE + "/targ
 
 ALLOWED_AXIOMS = set()  # every property theorem must be closed under the global context
 
-# which direct-oracle fault kinds speak about which property
+# which direct-oracle fault kinds speak about which property (None: every property -- a container that destroys
+# something twice, keeps a dead slot inside len, reports a wrong length or writes outside itself has left the states
+# every property quantifies over, whichever operation of whichever suite produced it)
 FAULT_PROPS = {
     "ALLOC": {"C06"},
     "OUTSIDE": {"C06", "C08"},
-    "CANARY": {"C03", "C17", "C18"},
+    "CANARY": None,
     "ALIAS": {"C13", "C17", "C18"},
-    "DOUBLE_DROP": {"C02", "C04", "C10", "C15", "C17", "C18"},
-    "DROP_GARBAGE": {"C02", "C04", "C10", "C15", "C17", "C18"},
-    "DROP_UNKNOWN": {"C02", "C04", "C17", "C18"},
-    "USE_DEAD": {"C02", "C04", "C10", "C15", "C17", "C18"},
-    "USE_GARBAGE": {"C02", "C04", "C10", "C15", "C17", "C18"},
-    "DEAD_IN_MAP": {"C02", "C04", "C05", "C10", "C17", "C18"},
+    "DOUBLE_DROP": None,
+    "DROP_GARBAGE": None,
+    "DROP_UNKNOWN": None,
+    "USE_DEAD": None,
+    "USE_GARBAGE": None,
+    "DEAD_IN_MAP": None,
     "LEAK": {"C02", "C03", "C10", "C15", "C16"},
-    "LEN_MISMATCH": {"C05", "C17", "C03"},
-    "LEN_GT_CAP": {"C05", "C17", "C03"},
+    "LEN_MISMATCH": None,
+    "LEN_GT_CAP": None,
     "IS_EMPTY": {"C05"},
     "HINT": {"C09", "C10"},
     "ITER_PROVIDED": {"C09", "C10"},
@@ -67,8 +69,8 @@ FAULT_PROPS = {
     "SHAPE_DISJOINT": {"C13", "C18"},
     "DROP_LEDGER": {"C02", "C10", "C04"},
     "PROVIDED": {"C09", "C10", "C08"},
-    "SHAPE_DICT": {"C01", "C03", "C05", "C09", "C10", "C11", "C12", "C13", "C14", "C15", "C16"},
-    "SHAPE_SET": {"C03", "C05", "C07", "C08", "C09", "C10", "C12", "C14", "C15", "C16"},
+    "SHAPE_DICT": {"C01", "C03", "C05", "C06", "C09", "C10", "C11", "C12", "C13", "C14", "C15", "C16"},
+    "SHAPE_SET": {"C03", "C05", "C06", "C07", "C08", "C09", "C10", "C12", "C14", "C15", "C16"},
     "DUP_KEY": None,  # every property quantifies over reachable states, and those have pairwise different keys
     "EXTEND_REF": {"C16"},
     "MIRI": None,
@@ -77,7 +79,7 @@ FAULT_PROPS = {
 # suites whose base cases get every fault position of the listed kinds
 # (1 eq, 2 clone, 3 drop, 4 closure / source next)
 FAULT_SUITES = {"C04": (1, 2, 3, 4), "C10": (3, 4), "C15": (2, 4), "C16": (4,), "C02": (3, 4), "C03": (4,), "C05": (1, 3, 4),
-                "C11": (4,), "C17": (4,)}
+                "C11": (1, 3, 4), "C17": (4,)}
 LEVEL = {"C06": "other"}
 
 
@@ -844,15 +846,12 @@ def check(prop, tier, replay=None):
             base = add_faults(base, tmp, (1, 2, 3, 4), 12 if tier == "quick" else 150)
         if prop != "C04":
             # states reached through a caught panic belong to "every reachable state" of every property: every
-            # fault position of the clone / known-finding bases, and (quick tier) a property-dependent quarter of
-            # the fault positions of the other panic-slice bases; C04's own suite has all of them anyway
+            # fault position of every panic-slice base (a property-dependent quarter of them in the quick tier was
+            # not enough: seeded change C11h needed one particular Drop position); C04's own suite has them anyway
             nfix = len(gen.known_fault_bases()) + len(gen.clone_fault_bases())
             pb = gen.panic_slice_bases()
             fixed = add_faults(pb[:nfix], tmp + "ps1", (1, 2, 3, 4), None)
             rest = add_faults(pb[nfix:], tmp + "ps2", (1, 2, 3, 4), None)
-            if tier == "quick":
-                k = int(prop[1:])
-                rest = [c for i, c in enumerate(rest) if (i + k) % 4 == 0]
             base = fixed + rest + base
         cases = corpus + base
     cpath = tmp + ".cases"
@@ -1074,9 +1073,11 @@ def check(prop, tier, replay=None):
 
 
 def honest_case(line):
-    """no lying == (adv = 0) and no injected fault (fault kind 0)"""
+    """no lying == (adv = 0) and no injected == fault: the n-th comparison is an internal position, whereas the Drop of a
+    given object, the n-th Clone and the n-th closure / source call are user-visible panic points of the property's
+    own quantifier ("every panic point in user code")"""
     t = line.split(" ; ")[0].split()
-    return len(t) >= 4 and t[0] == "0" and t[2] == "0"
+    return len(t) >= 4 and t[0] == "0" and t[2] in ("0", "2", "3", "4")
 
 
 def strip_internal(lines):
